@@ -128,6 +128,8 @@ def step (d : D) (ws : List String) : D × String :=
       (d, connection sdir cdir srv host aa ca true)
   | ["CLOSESRV", id] => ({ d with srvs := d.srvs.filter (fun x => x.1 != id) }, "ok")
   | ["CLOSE", _] => (d, "ok")
+  | ["FORKCLEAN", _] => (d, "ok")
+  | ["CTXLIVE"] => (d, "live_ctx=0")
   | ["PING", _] => (d, "-")
   | _ => (d, "bad-op")
 
